@@ -1,4 +1,5 @@
-(* C09 — concrete instances over Qc: non-vacuity examples and the witnesses of the two refuted statements. *)
+(* C09 — concrete instances over Qc: non-vacuity examples, and the witnesses of the two statements that were false of
+   the code BEFORE the repairs (definitions ..._before_fix), together with the same inputs through the repaired model. *)
 From Coq Require Import ZArith QArith Qcanon List Bool Arith Lia.
 From QV.Core Require Import OF QcOF Sums Mat.
 From QV.Model Require Import C09_LinEst.
@@ -8,6 +9,14 @@ Import ListNotations.
 Notation matQ := (@mat Qc_OF).
 Notation vecQ := (@vec Qc_OF).
 Definition q (a : Z) (b : positive) : Qc := Q2Qc (a # b).
+
+(* Proof engineering: never [vm_compute] a goal  _ = _ :> eres Qc_OF  (the type argument Qc_OF is normalised too and
+   [reflexivity]/[Qed] then take 10-20 s each).  Compute the constructor tag (a nat) and convert back. *)
+Definition tag (r : eres Qc_OF) : nat :=
+  match r with E_ok _ => 0 | E_guard => 1 | E_singular => 2 | E_stack => 3 | E_shape => 4 | E_internal => 5 end.
+Lemma tag_guard r : tag r = 1%nat -> r = E_guard.    Proof. destruct r; try discriminate; reflexivity. Qed.
+Lemma tag_singular r : tag r = 2%nat -> r = E_singular. Proof. destruct r; try discriminate; reflexivity. Qed.
+Lemma tag_stack r : tag r = 3%nat -> r = E_stack.    Proof. destruct r; try discriminate; reflexivity. Qed.
 
 (* ---- a well-posed instance: two schedules with 3 and 2 outcomes, two variables (asymmetric on purpose) *)
 Definition exA : matQ := mofr (F:=Qc_OF) [[q 1 1; q 0 1]; [q 0 1; q 1 1]; [q (-1) 1; q (-1) 1]; [q 1 1; q 1 1]; [q (-1) 1; q (-1) 1]].
@@ -45,26 +54,41 @@ Proof.
   destruct (calc_estimate_sequence (F:=Qc_OF) 4 2 exA2 exb2 exsq2) as [xs| | | | |]; try discriminate E.
   exists xs. split; [reflexivity|now apply Nat.eqb_eq]. Qed.
 
-(* ---- witness 1: the rank guard as coded (rank == min(shape)) passes for a WIDE matrix whose Gram matrix is singular *)
+(* ---- witness 1 (code AS IT WAS BEFORE fix fullrank-guard-column-rank): the rank guard rank == min(shape) passes for a
+        WIDE matrix whose Gram matrix is singular *)
 Definition wA : matQ := mofr (F:=Qc_OF) [[q 1 1; q 0 1]].
 Lemma guard_refuted_witness :
-  coded_guard (F:=Qc_OF) 1 2 wA = true /\ (forall M, ~ left_inverse_cert 2 M (gram 1 wA)) /\
-  calc_estimate_sequence (F:=Qc_OF) 1 2 wA [q 0 1] [[(1%Z, [q 1 1])]] = E_singular.
-Proof. split; [vm_compute; reflexivity|]. split; [|vm_compute; reflexivity].
+  coded_guard_before_fix (F:=Qc_OF) 1 2 wA = true /\ (forall M, ~ left_inverse_cert 2 M (gram 1 wA)) /\
+  calc_estimate_sequence_before_fix (F:=Qc_OF) 1 2 wA [q 0 1] [[(1%Z, [q 1 1])]] = E_singular.
+Proof. split; [vm_compute; reflexivity|]. split; [|apply tag_singular; vm_compute; reflexivity].
   intros M. apply (kernel_no_inverse Qc_OF 2 (gram 1 wA) M (vofl (F:=Qc_OF) [q 0 1; q 1 1])).
   apply ker_okb_spec. vm_compute. reflexivity. Qed.
 
 Lemma guard_refuted : exists (m n : nat) (A : matQ) (b : list Qc) (ds : dataset Qc_OF),
-  coded_guard m n A = true /\ (forall M, ~ left_inverse_cert n M (gram m A)) /\
-  calc_estimate m n A b ds = E_singular.
+  coded_guard_before_fix m n A = true /\ (forall M, ~ left_inverse_cert n M (gram m A)) /\
+  calc_estimate_before_fix m n A b ds = E_singular.
 Proof. exists 1%nat, 2%nat, wA, [q 0 1], [(1%Z, [q 1 1])]. exact guard_refuted_witness. Qed.
 
-(* ---- witness 2: a full-column-rank tester set with unequal outcome counts and EXACT data: the coded estimator raises *)
+(* the same input through the repaired code: the guard raises *)
+Lemma ex_wide_fixed : calc_estimate (F:=Qc_OF) 1 2 wA [q 0 1] [(1%Z, [q 1 1])] = E_guard.
+Proof. apply tag_guard. vm_compute. reflexivity. Qed.
+
+(* ---- witness 2 (code AS IT WAS BEFORE fix linear-estimator-unequal-outcome-counts): a full-column-rank tester set with
+        unequal outcome counts and EXACT data: the estimator raised *)
 Lemma mixed_counts_refuted : exists (m n : nat) (A M : matQ) (b : list Qc) (v : vecQ) (ds : dataset Qc_OF),
-  left_inverse_cert n M (gram m A) /\ coded_guard m n A = true /\
+  left_inverse_cert n M (gram m A) /\ coded_guard_before_fix m n A = true /\
   length (concat (map snd ds)) = m /\
   veq m (vofl (F:=Qc_OF) (concat (map snd ds))) (predict n A (vofl (F:=Qc_OF) b) v) /\
-  calc_estimate m n A b ds = E_stack.
+  calc_estimate_before_fix m n A b ds = E_stack.
 Proof. exists 5%nat, 2%nat, exA, exM, exb, exv, exds.
-  split; [exact ex_cert|]. split; [exact ex_guard|]. split; [reflexivity|]. split; [exact ex_exact_data|].
-  vm_compute. reflexivity. Qed.
+  split; [exact ex_cert|]. split; [vm_compute; reflexivity|]. split; [reflexivity|]. split; [exact ex_exact_data|].
+  apply tag_stack. vm_compute. reflexivity. Qed.
+
+(* the same input through the repaired code: the true variables (1/2, 1/4) come back *)
+Lemma ex_mixed_fixed : exists x, calc_estimate (F:=Qc_OF) 5 2 exA exb exds = E_ok [x] /\ length x = 2%nat /\ veq 2 (vofl (F:=Qc_OF) x) exv.
+Proof.
+  assert (E : match calc_estimate (F:=Qc_OF) 5 2 exA exb exds with
+              | E_ok [x] => Nat.eqb (length x) 2 && veqb 2 (vofl (F:=Qc_OF) x) exv | _ => false end = true)
+    by (vm_compute; reflexivity).
+  destruct (calc_estimate (F:=Qc_OF) 5 2 exA exb exds) as [[|x [|y t]]| | | | |]; try discriminate E.
+  apply andb_true_iff in E. destruct E as [E1 E2]. exists x. split; [reflexivity|]. split; [now apply Nat.eqb_eq|now apply veqb_spec]. Qed.
